@@ -286,6 +286,11 @@ func runF(c fcase, m *module, cls []pcls, dir string) (init fobsG, obs []fobsG, 
 	}
 	if !ds.VerifClosed() {
 		ds.Close()
+	} else {
+		// the source closed itself inside its goroutine, which is now blocked in Close on its own
+		// unbuffered channel with the fsnotify watcher still open; receive once so that it ends
+		// (otherwise every such case leaks an inotify instance)
+		ds.VerifReleaseSelfClose(2 * time.Second)
 	}
 	os.Remove(path)
 	os.Remove(path + ".bak")
